@@ -613,10 +613,60 @@ pub fn gather_dependencies(
     let parsed = parse_sexp(Srcloc::start(real_input_path), file_content.bytes())?;
     let program = frontend(opts, &parsed)?;
 
-    let filtered_results: Vec<IncludeDesc> = program
-        .include_forms
+    let mut include_forms = program.include_forms.clone();
+    collect_nested_mod_includes(&mut include_forms, &program);
+
+    let filtered_results: Vec<IncludeDesc> = include_forms
         .into_iter()
         .filter(|f| !f.name.starts_with(b"*"))
         .collect();
     Ok(filtered_results)
+}
+
+// A (mod ...) used as an expression is parsed by its own frontend pass and
+// keeps the includes it traversed in its own CompileForm.  Those files are read
+// when the program is compiled, so they belong in the dependency list too.
+fn collect_nested_mod_includes(includes: &mut Vec<IncludeDesc>, program: &CompileForm) {
+    for h in program.helpers.iter() {
+        match h {
+            HelperForm::Defconstant(defc) => {
+                collect_nested_mod_includes_bodyform(includes, defc.body.borrow());
+            }
+            HelperForm::Defmacro(mac) => {
+                collect_nested_mod_includes(includes, mac.program.borrow());
+            }
+            HelperForm::Defun(_, defun) => {
+                collect_nested_mod_includes_bodyform(includes, defun.body.borrow());
+            }
+        }
+    }
+    collect_nested_mod_includes_bodyform(includes, program.exp.borrow());
+}
+
+fn collect_nested_mod_includes_bodyform(includes: &mut Vec<IncludeDesc>, body: &BodyForm) {
+    match body {
+        BodyForm::Let(_, letdata) => {
+            for b in letdata.bindings.iter() {
+                collect_nested_mod_includes_bodyform(includes, b.body.borrow());
+            }
+            collect_nested_mod_includes_bodyform(includes, letdata.body.borrow());
+        }
+        BodyForm::Quoted(_) | BodyForm::Value(_) => {}
+        BodyForm::Call(_, args, tail) => {
+            for a in args.iter() {
+                collect_nested_mod_includes_bodyform(includes, a.borrow());
+            }
+            if let Some(t) = tail {
+                collect_nested_mod_includes_bodyform(includes, t.borrow());
+            }
+        }
+        BodyForm::Mod(_, inner) => {
+            includes.extend(inner.include_forms.iter().cloned());
+            collect_nested_mod_includes(includes, inner);
+        }
+        BodyForm::Lambda(ldata) => {
+            collect_nested_mod_includes_bodyform(includes, ldata.captures.borrow());
+            collect_nested_mod_includes_bodyform(includes, ldata.body.borrow());
+        }
+    }
 }
